@@ -177,6 +177,9 @@ pub(crate) fn mk_conn(shape: Shape, body_have: usize) -> HttpConnection<Mock> {
     let mut conn = HttpConnection::new(Mock::new());
     conn.buffer = kani::any();
     conn.payload_max_size = kani::any();
+    // a stale cursor must never matter: every step overwrites it before it is used again
+    conn.read_cursor = kani::any();
+    kani::assume(conn.read_cursor < B);
     match shape {
         Shape::RL => {}
         Shape::HD => {
@@ -187,7 +190,9 @@ pub(crate) fn mk_conn(shape: Shape, body_have: usize) -> HttpConnection<Mock> {
             conn.state = ConnectionState::WaitingForBody;
             let todo: u32 = kani::any();
             kani::assume(todo >= 1);
-            kani::assume(todo <= u32::MAX - body_have as u32);
+            // beyond the window the counter is only compared and decremented; a symbolic
+            // multi-gigabyte Vec length makes CBMC's memory model explode (16 GB at B=8)
+            kani::assume(todo <= 4 * B as u32);
             let mut i = 0;
             while i < body_have {
                 conn.body_vec.push(kani::any());
@@ -286,5 +291,397 @@ fn fc_request_line() {
         }
     }
     assert!(conn.parsed_requests.is_empty() && conn.response_queue.is_empty());
+    std::mem::forget(r);
     std::mem::forget(conn);
 }
+
+
+fn resp_is_continue(r: &Response, v: Version) -> bool {
+    r.status() == StatusCode::Continue && r.http_version() == v && r.body().is_none()
+}
+
+// ---------------------------------------------------------------------------------------------
+// F-contract: parse_headers
+// ---------------------------------------------------------------------------------------------
+// @harness props=C01,C02,C03,C04,C11,C13 tiers=quick:B=8;thorough:B=16 unwind=B+2 cap=1500 mem=8 covers=7
+// @fn HttpConnection::parse_headers request::find HttpConnection::shift_buffer_left Response::new
+// @stubs std::string::String::from_utf8_lossy
+// @claim F-contract(headers): CRLF at start => end of headers: content_length 0 -> RequestReady; n>limit -> SizeLimitExceeded(limit,n) (full width n:u32, limit:usize); else WaitingForBody with counter n, empty body, exactly one 100-continue with the request's version iff expect; CRLF at i>start => header parser called once on w[start..i), fatal error propagated, UnsupportedValue ignored, start'=i+2; no CRLF => header SizeLimitExceeded iff start==0 && end==B else carried to offset 0
+// @bounds window B bytes, arbitrary contents, arbitrary 0<=start<=end<=B; pending request with arbitrary content_length/expect/method/version; header-line content parser replaced by the surrogate
+#[kani::proof]
+#[kani::stub(std::string::String::from_utf8_lossy, hk::lossy_stub)]
+fn fc_headers() {
+    set_surrogates(true);
+    let mut conn = mk_conn(Shape::HD, 0);
+    let w = conn.buffer;
+    let start: usize = kani::any();
+    let end: usize = kani::any();
+    kani::assume(start <= end && end <= B);
+    let watch: usize = kani::any();
+    kani::assume(watch < B);
+    unsafe { rk::WATCH = watch };
+    let limit = conn.payload_max_size;
+    let (cl0, expect0, version0, method0) = {
+        let p = conn.pending_request.as_ref().unwrap();
+        (p.headers.content_length(), p.headers.expect(), p.http_version(), p.method())
+    };
+    let mut s = start;
+    let r = conn.parse_headers(&mut s, end);
+    let qlen = conn.response_queue.len();
+    match ref_find_crlf(&w, start, end) {
+        Some(i) if i == start => {
+            assert!(unsafe { rk::LOG_N } == 0, "[C02] header parser called on the blank line");
+            if cl0 == 0 {
+                assert!(matches!(r, Ok(true)));
+                assert!(state_code(&conn) == 3 && s == start + 2);
+                assert!(qlen == 0, "[C13] interim response queued for a request without body");
+                assert!(conn.pending_request.as_ref().unwrap().body.is_none());
+                kani::cover!(true, "end of headers, no body");
+            } else if cl0 as u64 > limit as u64 {
+                match &r {
+                    Err(ConnectionError::ParseError(RequestError::SizeLimitExceeded(l, n))) => {
+                        assert!(*l == limit && *n == cl0 as usize, "[C04] size-limit error reports the wrong numbers");
+                    }
+                    _ => panic!("[C04] oversized declaration not rejected at the end of headers"),
+                }
+                assert!(qlen == 0, "[C13] interim response queued for a rejected request");
+                kani::cover!(cl0 as u64 == limit as u64 + 1, "limit exceeded by one");
+            } else {
+                assert!(matches!(r, Ok(true)), "[C04] declaration within the limit rejected");
+                kani::cover!(cl0 as u64 == limit as u64, "declaration equal to the limit");
+                assert!(state_code(&conn) == 2 && s == start + 2);
+                assert!(conn.body_bytes_to_be_read == cl0);
+                assert!(conn.body_vec.is_empty());
+                let p = conn.pending_request.as_ref().unwrap();
+                assert!(matches!(&p.body, Some(b) if b.is_empty()));
+                if expect0 {
+                    assert!(qlen == 1, "[C13] 100-continue not queued exactly once");
+                    assert!(resp_is_continue(&conn.response_queue[0], version0), "[C13] interim response has the wrong status or version");
+                    kani::cover!(true, "100-continue queued");
+                } else {
+                    assert!(qlen == 0, "[C13] 100-continue queued without Expect");
+                }
+            }
+        }
+        Some(i) => {
+            let (kind, len, d) = unsafe { rk::LOG[0] };
+            assert!(unsafe { rk::LOG_N } == 1 && kind == 2 && len == i - start, "[C01,C02] header line handed to the parser has the wrong extent");
+            if watch < len {
+                assert!(d == w[start + watch], "[C01,C02] header line handed to the parser has the wrong bytes");
+            }
+            assert!(qlen == 0);
+            let b = w[start] & 7;
+            if b == 4 {
+                assert!(matches!(r, Err(ConnectionError::ParseError(RequestError::HeaderError(HttpHeaderError::InvalidFormat(_))))), "[C02] fatal header error not propagated");
+            } else {
+                assert!(matches!(r, Ok(true)), "[C02,C15] acceptable or ignorable header line rejected");
+                assert!(s == i + 2 && state_code(&conn) == 1);
+                let p = conn.pending_request.as_ref().unwrap();
+                let b1 = if len > 1 { w[start + 1] as u32 } else { 0 };
+                let want_cl = if b == 1 { b1 } else if b == 5 { 0xffff_ff00 | b1 } else { cl0 };
+                assert!(p.headers.content_length() == want_cl);
+                assert!(p.headers.expect() == (expect0 || b == 2));
+                assert!(p.http_version() == version0 && p.method() == method0);
+                kani::cover!(b == 3, "unsupported value ignored");
+            }
+        }
+        None => {
+            assert!(unsafe { rk::LOG_N } == 0);
+            assert!(qlen == 0);
+            if start == 0 && end == B {
+                assert!(matches!(r, Err(ConnectionError::ParseError(RequestError::HeaderError(HttpHeaderError::SizeLimitExceeded(_))))), "[C04] over-long header line not rejected");
+                kani::cover!(true, "header line too long");
+            } else {
+                assert!(matches!(r, Ok(false)), "[C04] header line rejected although it may still fit");
+                assert!(conn.read_cursor == end - start, "[C01] read cursor after carrying an incomplete header line");
+                let j: usize = kani::any();
+                kani::assume(j < end - start);
+                assert!(conn.buffer[j] == w[start + j], "[C01] carried bytes differ");
+                assert!(state_code(&conn) == 1);
+                kani::cover!(start > 0 && end > start + 1, "carried with shift");
+            }
+        }
+    }
+    assert!(conn.parsed_requests.is_empty());
+    std::mem::forget(r);
+    std::mem::forget(conn);
+}
+
+// ---------------------------------------------------------------------------------------------
+// F-contract: parse_body
+// ---------------------------------------------------------------------------------------------
+/// One parse_body call with *concrete* sizes: `avail` bytes in the window, `todo` either a
+/// concrete value <= avail (Some) or symbolic and larger than avail (None).  (Symbolic Vec
+/// lengths in extend_from_slice / drain exhaust CBMC's memory: >16 GB at B=8.)
+fn fc_body_case(have: usize, avail: usize, todo_c: Option<u32>, start_c: Option<usize>) {
+    let mut conn = mk_conn(Shape::BD, have);
+    let todo: u32 = match todo_c {
+        Some(t) => t,
+        None => {
+            let t: u32 = kani::any();
+            // larger counters take the same path (the counter is only compared and decremented);
+            // an unbounded one makes CBMC encode a multi-gigabyte slice copy on the dead branch
+            kani::assume(t >= 1 && t as u64 <= avail as u64 + 3);
+            t
+        }
+    };
+    conn.body_bytes_to_be_read = todo;
+    hk::set_cl(&mut conn.pending_request.as_mut().unwrap().headers, todo.wrapping_add(have as u32));
+    kani::assume(todo <= u32::MAX - have as u32);
+    let w = conn.buffer;
+    // byte contents are compared for concrete window offsets only: a copy out of the window at
+    // a symbolic offset followed by drain/collect exhausts CBMC (>16 GB); extents, cursors and
+    // state are checked for every offset
+    let check_bytes = start_c.is_some();
+    let start: usize = match start_c {
+        Some(s) => s,
+        None => kani::any(),
+    };
+    kani::assume(start <= B - avail);
+    let end = start + avail;
+    let mut old = [0u8; 4];
+    let mut i = 0;
+    while i < have {
+        old[i] = conn.body_vec[i];
+        i += 1;
+    }
+    let cl = conn.pending_request.as_ref().unwrap().headers.content_length();
+    let mut s = start;
+    let r = conn.parse_body(&mut s, end);
+    let j: usize = kani::any();
+    if todo as u64 > avail as u64 {
+        assert!(matches!(r, Ok(false)), "[C01,C02] incomplete body not awaited");
+        assert!(conn.body_vec.len() == have + avail, "[C01,C02] accumulated body length");
+        if check_bytes {
+            kani::assume(j < have + avail);
+            let want = if j < have { old[j] } else { w[start + (j - have)] };
+            assert!(conn.body_vec[j] == want, "[C01,C02] accumulated body bytes");
+        }
+        assert!(conn.body_bytes_to_be_read == todo - avail as u32);
+        assert!(conn.read_cursor == 0, "[C01] read cursor not reset after consuming body bytes");
+        assert!(state_code(&conn) == 2);
+    } else {
+        assert!(matches!(r, Ok(true)), "[C02] complete body not delivered");
+        let t = todo as usize;
+        assert!(s == start + t, "[C01] body/next-request boundary");
+        assert!(state_code(&conn) == 3);
+        assert!(conn.body_vec.is_empty() && conn.body_bytes_to_be_read == 0);
+        let p = conn.pending_request.as_ref().unwrap();
+        let body = p.body.as_ref().unwrap();
+        assert!(body.len() == have + t && body.len() == cl as usize, "[C01,C02,C04] delivered body length differs from Content-Length");
+        if check_bytes {
+            kani::assume(j < have + t);
+            let want = if j < have { old[j] } else { w[start + (j - have)] };
+            assert!(body.raw()[j] == want, "[C01,C02] delivered body bytes");
+        }
+    }
+    assert!(conn.parsed_requests.is_empty() && conn.response_queue.is_empty(), "[C13] queue changed while reading a body");
+    kani::cover!(todo_c.is_some() || todo as u64 > avail as u64, "incomplete body");
+    kani::cover!(todo_c.is_some() || avail == 0 || todo as u64 <= avail as u64, "complete body");
+    std::mem::forget(r);
+    std::mem::forget(conn);
+}
+
+// @harness props=C01,C02,C03,C04,C13 tiers=quick:B=8,K=0|B=8,K=1|B=8,K=3|B=8,K=8;thorough:B=16,K=0|B=16,K=1|B=16,K=2|B=16,K=5|B=16,K=8|B=16,K=15|B=16,K=16 unwind=B+5 cap=900 mem=8 covers=2
+// @fn HttpConnection::parse_body
+// @claim F-contract(body), extents: takes exactly min(counter, end-start) bytes; incomplete => length accumulated, counter reduced, window cleared, read_cursor 0; complete => start'=start+counter, body length == Content-Length, state RequestReady; queues untouched
+// @bounds window B bytes; K = end-start concrete per query, start arbitrary; counter arbitrary in 1..=K+3 (larger counters take the same path); no bytes accumulated before; byte contents are checked by fc_body_bytes
+#[kani::proof]
+fn fc_body_0() {
+    set_surrogates(true);
+    fc_body_case(0, crate::verif_params::K, None, None);
+}
+
+// @harness props=C01,C02,C03,C04 tiers=quick:B=8,K=2|B=8,K=8;thorough:B=16,K=0|B=16,K=3|B=16,K=16 unwind=B+5 cap=900 mem=8 covers=2
+// @fn HttpConnection::parse_body
+// @claim as fc_body_0 with 2 symbolic bytes already accumulated by earlier reads
+// @bounds as fc_body_0; 2 bytes accumulated before
+#[kani::proof]
+fn fc_body_2() {
+    set_surrogates(true);
+    fc_body_case(2, crate::verif_params::K, None, None);
+}
+
+// @harness props=C01,C02,C03 tiers=quick:B=8,M=0|B=8,M=1|B=8,M=2|B=8,M=3;thorough:B=16,M=0|B=16,M=1|B=16,M=2|B=16,M=3|B=16,M=4|B=16,M=5 unwind=B+5 cap=900 mem=8 covers=2
+// @fn HttpConnection::parse_body
+// @claim F-contract(body), contents: the accumulated / delivered body consists of exactly the window bytes [start, start+min(counter,avail)) after the bytes accumulated before, in order
+// @bounds concrete (already accumulated, avail, start, counter) tuples, one per query M: (0,3,1,2) (0,3,1,5) (2,B,0,B) (2,B-1,1,B+1) (0,1,B-1,1) (2,2,B-2,1); window contents and accumulated bytes symbolic
+#[kani::proof]
+fn fc_body_bytes() {
+    set_surrogates(true);
+    match crate::verif_params::M {
+        0 => fc_body_case(0, 3, Some(2), Some(1)),
+        1 => fc_body_case(0, 3, Some(5), Some(1)),
+        2 => fc_body_case(2, B, Some(B as u32), Some(0)),
+        3 => fc_body_case(2, B - 1, Some(B as u32 + 1), Some(1)),
+        4 => fc_body_case(0, 1, Some(1), Some(B - 1)),
+        _ => fc_body_case(2, 2, Some(1), Some(B - 2)),
+    }
+}
+
+// ---------------------------------------------------------------------------------------------
+// F-read: read_bytes / recv_with_fds (also C12: descriptors)
+// ---------------------------------------------------------------------------------------------
+fn raw_fd_of(f: &File) -> RawFd {
+    f.as_raw_fd()
+}
+
+// @harness props=C01,C03,C12 tiers=quick:B=8;thorough:B=16 unwind=B+2 cap=1500 mem=8 covers=4
+// @fn HttpConnection::read_bytes HttpConnection::recv_with_fds
+// @claim F-read: exactly one receive, on buffer[read_cursor..]; chunk stored at [rc, rc+n), [0,rc) untouched, returns rc+n; 0 bytes => ConnectionClosed, stream error => StreamReadError, both leaving the parser state as it was; received descriptors are each wrapped once and appended in arrival order after the ones already held (also on the 0-byte read)
+// @bounds window B; read_cursor arbitrary < B; chunk arbitrary, length 0..=B (truncated to the iovec by the kernel contract); 0..=3 received descriptors with arbitrary numbers, 1 descriptor already held
+#[kani::proof]
+fn f_read() {
+    set_surrogates(true);
+    let mut conn = mk_conn(Shape::RL, 0);
+    let w = conn.buffer;
+    let rc = conn.read_cursor;
+    let held: RawFd = kani::any();
+    kani::assume(held >= 1000 && held < 100000);
+    conn.files.push(unsafe { File::from_raw_fd(held) });
+    let chunk: [u8; B] = kani::any();
+    let n: usize = kani::any();
+    kani::assume(n <= B);
+    conn.stream.feed(chunk, n);
+    let fds: [RawFd; MAXFD] = kani::any();
+    kani::assume(fds[0] >= 1000 && fds[0] < 100000 && fds[1] >= 1000 && fds[1] < 100000 && fds[2] >= 1000 && fds[2] < 100000);
+    let nfds: usize = kani::any();
+    kani::assume(nfds <= MAXFD);
+    conn.stream.fds.set(fds);
+    conn.stream.nfds.set(nfds);
+    let errno: i32 = if kani::any() { 0 } else { 11 };
+    conn.stream.recv_errno.set(errno);
+    let r = conn.read_bytes();
+    assert!(conn.stream.recv_calls.get() == 1, "[C03] not exactly one receive per read");
+    assert!(conn.stream.last_iov_len.get() == B - rc, "[C01,C03] receive window is not buffer[read_cursor..]");
+    let got = std::cmp::min(n, B - rc);
+    let j: usize = kani::any();
+    kani::assume(j < B);
+    if errno != 0 {
+        assert!(matches!(r, Err(ConnectionError::StreamReadError(_))));
+        assert!(conn.buffer[j] == w[j] && conn.read_cursor == rc, "[C01] an empty read changed buffered input");
+        assert!(conn.files.len() == 1);
+        kani::cover!(true, "EAGAIN");
+    } else {
+        assert!(conn.files.len() == 1 + nfds, "[C12] received descriptors lost or duplicated");
+        assert!(raw_fd_of(&conn.files[0]) == held, "[C12] held descriptor displaced");
+        let k: usize = kani::any();
+        kani::assume(k < nfds);
+        assert!(raw_fd_of(&conn.files[1 + k]) == fds[k], "[C12] descriptors not appended in arrival order");
+        if got == 0 {
+            assert!(matches!(r, Err(ConnectionError::ConnectionClosed)));
+            kani::cover!(nfds == 3, "EOF read carrying descriptors");
+        } else {
+            assert!(matches!(r, Ok(e) if e == rc + got), "[C01] end cursor");
+            if j < rc {
+                assert!(conn.buffer[j] == w[j], "[C01] carried bytes overwritten by the read");
+            } else if j < rc + got {
+                assert!(conn.buffer[j] == chunk[j - rc], "[C01] received bytes stored at the wrong place");
+            }
+            assert!(conn.read_cursor == rc);
+            kani::cover!(rc > 0 && got > 1 && nfds == 2, "append after carried bytes");
+            kani::cover!(rc + got == B, "window filled");
+        }
+    }
+    assert!(state_code(&conn) == 0 && conn.pending_request.is_none());
+    std::mem::forget(r);
+    std::mem::forget(conn);
+}
+
+// ---------------------------------------------------------------------------------------------
+// C06: try_write
+// ---------------------------------------------------------------------------------------------
+use crate::verif_params::N as STEPS;
+
+const RESP_STATUS: [StatusCode; 6] = [
+    StatusCode::OK,
+    StatusCode::NotFound,
+    StatusCode::BadRequest,
+    StatusCode::Unauthorized,
+    StatusCode::NotImplemented,
+    StatusCode::ServiceUnavailable,
+];
+
+fn mk_resp(id: usize, v: Version) -> Response {
+    Response::new(v, RESP_STATUS[id])
+}
+
+fn ser(id: usize, v: Version) -> Vec<u8> {
+    let mut out = Vec::new();
+    let _ = mk_resp(id, v).write_all(&mut out);
+    out
+}
+
+// @harness props=C06,C03 tiers=quick:N=5;thorough:N=5|N=7 unwind=N+3 cap=1500 mem=10 covers=5
+// @fn HttpConnection::try_write HttpConnection::enqueue_response HttpConnection::clear_write_buffer HttpConnection::pending_write Response::write_all
+// @claim history invariant, checked at every step of every sequence of N operations from a fresh connection (each operation symbolically either enqueue_response or try_write with a symbolic stream answer): every write call passes the stream exactly the not-yet-accepted suffix of the oldest unsent response (length and an arbitrary byte), exactly one stream write per try_write, none when nothing is pending (InvalidWrite); Ok(k<len) keeps the rest, Ok(len) moves to the next response, EINTR changes nothing, Ok(0)/EAGAIN/EPIPE discard everything and report ConnectionClosed; pending_write() <=> something unsent
+// @bounds N operations; responses without body (117-byte serializations, distinct status codes), both versions; stream answers: accept k for every k, EINTR, EAGAIN, EPIPE
+#[kani::proof]
+fn c06_history() {
+    let v = any_version();
+    let mut conn = HttpConnection::new(Mock::new());
+    let watch: usize = kani::any();
+    kani::assume(watch < 128);
+    conn.stream.watchw = watch;
+    // model: ids of the unsent responses in order, offset already accepted of the oldest
+    let mut q = [0usize; 8];
+    let mut qh = 0usize;
+    let mut qt = 0usize;
+    let mut off = 0usize;
+    let mut next_id = 0usize;
+    let mut step = 0;
+    while step < STEPS {
+        if kani::any() && next_id < 6 {
+            conn.enqueue_response(mk_resp(next_id, v));
+            q[qt] = next_id;
+            qt += 1;
+            next_id += 1;
+        } else {
+            let ans: isize = kani::any();
+            kani::assume(ans >= -3 && ans <= 200);
+            conn.stream.write_answer = ans;
+            let calls0 = conn.stream.write_calls;
+            let r = conn.try_write();
+            if qh == qt {
+                assert!(matches!(r, Err(ConnectionError::InvalidWrite)), "[C06] write with nothing pending must report InvalidWrite");
+                assert!(conn.stream.write_calls == calls0, "[C06,C03] stream touched although nothing was pending");
+                kani::cover!(step > 0, "invalid write");
+            } else {
+                assert!(conn.stream.write_calls == calls0 + 1, "[C06,C03] not exactly one stream write per try_write");
+                let expected = ser(q[qh], v);
+                let rest = expected.len() - off;
+                assert!(conn.stream.last_write_len == rest, "[C06] bytes offered to the stream are not the unsent suffix of the oldest response (length)");
+                if watch < rest {
+                    assert!(conn.stream.last_write_watch == expected[off + watch], "[C06] bytes offered to the stream are not the unsent suffix of the oldest response (content)");
+                }
+                if ans == -1 {
+                    assert!(r.is_ok(), "[C06] an interrupted write must be tolerated");
+                    kani::cover!(off > 0, "EINTR after a short write");
+                } else if ans == 0 || ans < -1 {
+                    assert!(matches!(r, Err(ConnectionError::ConnectionClosed)), "[C06] failed write must report ConnectionClosed");
+                    qh = qt;
+                    off = 0;
+                    kani::cover!(qt > 1, "discard");
+                } else {
+                    assert!(r.is_ok());
+                    let k = std::cmp::min(ans as usize, rest);
+                    if k == rest {
+                        qh += 1;
+                        off = 0;
+                        kani::cover!(qh == 2, "second response fully written");
+                    } else {
+                        off += k;
+                        kani::cover!(off > k, "two short writes in a row");
+                    }
+                }
+                std::mem::forget(expected);
+            }
+            std::mem::forget(r);
+        }
+        assert!(conn.pending_write() == (qh != qt), "[C06] pending_write() disagrees with the unsent output");
+        step += 1;
+    }
+    std::mem::forget(conn);
+}
+
+
